@@ -215,6 +215,8 @@ func extraCell(name string) cellRec {
 		return r
 	}, shape)
 	switch axis {
+	case "wireop", "compose":
+		return cellRec{Kind: "extra", Ref: axis, Pos: site, Shape: shape}
 	case "name", "text":
 		return cellRec{Kind: "extra", Ref: axis, Pos: site, Shape: shape}
 	case "kitchen":
